@@ -14,6 +14,7 @@ use crate::{
         dml::DmlExecutor,
     },
     storage::tuple::Row,
+    types::ObjectId,
 };
 
 use std::io::{Error as IoError, ErrorKind};
@@ -164,14 +165,16 @@ impl WalRecuperator {
 
         // Determine if it's a table or index and execute the inverse
         if let Ok(create_table_instr) = CreateTableInstr::from_bytes(redo_bytes) {
-            let drop_instr = create_table_instr.inverse(object_id);
+            // if_exists = true for recovery: the created object may never have reached the data file
+            let drop_instr =
+                DropTableInstr::new(create_table_instr.table_name, object_id, true, true);
             let instr = DdlInstruction::DropTable(drop_instr);
             self.ddl_executor.execute_instruction(&instr)?;
             return Ok(());
         }
 
         if let Ok(create_index_instr) = CreateIndexInstr::from_bytes(redo_bytes) {
-            let drop_instr = create_index_instr.inverse(object_id);
+            let drop_instr = DropIndexInstr::new(create_index_instr.index_name, object_id, true);
             let instr = DdlInstruction::DropIndex(drop_instr);
             self.ddl_executor.execute_instruction(&instr)?;
         }
@@ -282,11 +285,27 @@ impl WalRecuperator {
         Ok(())
     }
 
+    /// True when the table a logged DML operation refers to exists in the catalog.
+    /// A loser transaction may have created the table itself; if that CREATE never reached
+    /// the data file there is nothing to roll back.
+    fn table_exists(&self, table_id: ObjectId) -> bool {
+        let builder = self.dml_executor.ctx().tree_builder();
+        let snapshot = self.dml_executor.ctx().snapshot();
+        self.dml_executor
+            .ctx()
+            .catalog()
+            .get_relation(table_id, &builder, &snapshot)
+            .is_ok()
+    }
+
     // DML Undo operations
     fn undo_delete(&mut self, delete_op: &Delete) -> RuntimeResult<()> {
         let table_id = delete_op
             .object_id()
             .expect("Table id must be set for DML logs");
+        if !self.table_exists(table_id) {
+            return Ok(());
+        }
 
         let builder = self.dml_executor.ctx().tree_builder();
         let snapshot = self.dml_executor.ctx().snapshot();
@@ -310,6 +329,9 @@ impl WalRecuperator {
         let table_id = update_op
             .object_id()
             .expect("Table id must be set for DML logs");
+        if !self.table_exists(table_id) {
+            return Ok(());
+        }
         let row_id = update_op
             .row_id()
             .map(|r| UInt64::from(r))
@@ -338,6 +360,9 @@ impl WalRecuperator {
         let table_id = insert_op
             .object_id()
             .expect("Table id must be set for DML logs");
+        if !self.table_exists(table_id) {
+            return Ok(());
+        }
         let row_id = insert_op
             .row_id()
             .map(|r| UInt64::from(r))
